@@ -52,7 +52,6 @@ NumpyOnly == {"natural_breaks", "a_star_search", "viewshed", "regions", "trim", 
 Supported(f, backend, dtype, layout) ==
   /\ f \in AllFuncs /\ f # "bands_to_img" /\ f # "bump"
   /\ (f \in NumpyOnly => backend = "numpy")
-  /\ (f = "perlin" /\ backend = "numpy" => layout # "readonly")
   /\ (f = "generate_terrain" /\ backend = "numpy" => dtype \in FloatDT)
   /\ (f = "local_rank" => dtype \in IntDT)
 
